@@ -124,6 +124,9 @@ def enclosing_sorted_loop(ctx, ins):
 
 def ordered_by_construction(ctx, pt, ins, all_ins):
     """C06.3: dynamic-key insertion that produces ascending keys by construction."""
+    asc = appended_in_key_order(ctx, pt, ins, all_ins)
+    if asc:
+        return True, asc
     loop = enclosing_sorted_loop(ctx, ins)
     if loop is None:
         return False, "key is not the loop variable of a `for k in sorted(...)` loop with default ordering"
@@ -136,6 +139,44 @@ def ordered_by_construction(ctx, pt, ins, all_ins):
         if other is not ins and (objs & base) and other.how not in ("del", "rekey"):
             return False, "the dictionary is also inserted into at line %s" % getattr(other.node, "lineno", "?")
     return True, "filled only in `for %s in %s`" % (ins.key.id, norm(loop.iter))
+
+
+def appended_in_key_order(ctx, pt, ins, all_ins):
+    """A constant key stored into a dictionary that the same function created as a display of constant keys, all of them
+    smaller, and every other insertion into it is a constant-key store of this function that comes earlier with a smaller
+    key or later with a larger one (program order along the function's statements): the keys appear in ascending order
+    whichever of the stores are executed.  Returns a reason or None."""
+    ck = const_str(ins.key) if ins.key is not None and ins.how == "store" else None
+    if ck is None:
+        return None
+    base = pt.pts(ins.base, ins.fn)
+    if not base:
+        return None
+    shown = []
+    for o in base:
+        # (the local may name one of several displays, e.g. one per arm of an if: each must qualify)
+        if not (o.kind == "dict" and o.fn is ins.fn and isinstance(o.node, ast.Dict) and all(k is not None and const_str(k) is not None for k in o.node.keys)):
+            return None
+        shown_o = [const_str(k) for k in o.node.keys]
+        if shown_o != sorted(shown_o) or (shown_o and not shown_o[-1] < ck):
+            return None
+        shown = shown_o
+    g = C.cfg_of(ins.fn)
+    me = C.stmt_node(ctx, ins.fn, ins.node)
+    for other, objs in all_ins:
+        if other is ins or not (objs & base) or other.how in ("del", "rekey"):
+            continue
+        ok_ = other.fn is ins.fn and other.how == "store" and other.key is not None and const_str(other.key) is not None
+        if not ok_:
+            return None
+        on = C.stmt_node(ctx, ins.fn, other.node)
+        k2 = const_str(other.key)
+        before, after = me in g.reachable(on) and on is not me, on in g.reachable(me) and on is not me
+        if before and after:
+            return None          # in a loop together
+        if (before and not k2 < ck) or (after and not ck < k2):
+            return None          # (stores that cannot follow one another sit on different paths: no constraint)
+    return "constant key %r is stored after the display {%s} of smaller keys, other stores in ascending order" % (ck, ", ".join(shown))
 
 
 def key_certainly_present(ctx, pt, ins):
@@ -401,6 +442,17 @@ def canonical_order(ctx, pt, site):
                 how, label, len(unordered), norm(example.node)[:60], example.fn.qualname, example.node.lineno, norm(verdict[0].stmt)[:80]),
                 norm(call) + " :: " + label)
         else:
+            # a re-keying somewhere in this module whose source dictionary the points-to analysis could not identify (the field
+            # of a record, the result of a call): it may be the one that orders this dictionary
+            blind = []
+            for f2 in [x for x in ctx.prog.functions.values() if x.module is fn.module]:
+                for ev2 in sort_events(ctx, pt, f2):
+                    if not ev2.inplace and not pt.pts(ev2.src, ev2.src_fn or ev2.fn):
+                        blind.append(ev2)
+            if blind:
+                ctx.undecided("C06.1", fn, "dump via %s: dictionary '%s' is filled in insertion order; a re-keying exists (`%s` in %s) but which dictionary it copies could not be identified" % (
+                    how, label, norm(blind[0].stmt)[:70], (blind[0].src_fn or blind[0].fn).qualname), norm(call) + " :: " + label)
+                continue
             detail = "dump via %s: dictionary '%s' is filled in insertion order (e.g. %s in %s) and is not re-keyed with dict(sorted(...items())) on every path to the dump after its last insertion" % (
                 how, label, norm(example.node)[:70], example.fn.qual)
             if reasons:
@@ -542,7 +594,10 @@ def literal_order(ctx, pt, o, label, ins_here, site):
         keys = [const_str(k) if k is not None else None for k in n.keys]
         if mine:
             # inserted only by C06.3-conformant statements
-            if n.keys:
+            all_ins_ = [(i, objs) for (i, objs) in ins_here]
+            if n.keys and all(appended_in_key_order(ctx, pt, i, all_ins_) for i in mine):
+                ctx.holds("C06.3", fn, "dictionary '%s' starts with the display {%s} and is only extended by constant keys in ascending order" % (label, ", ".join(str(k) for k in keys)), n)
+            elif n.keys:
                 ctx.violated("C06.3", fn, "dictionary '%s' starts with literal keys and is then inserted into: ascending order is not guaranteed" % label, n)
             else:
                 i = mine[0]
@@ -641,6 +696,8 @@ def value_kinds(ctx, pt, sites):
             label = "/".join(sorted(kp[next(iter(objs))])[0]) or "<top level>"
             n += 1
             bad = definitely_unencodable(ctx, ins.value, ins.fn)
+            if bad and _never_executed(ctx, ins):
+                bad = None          # the tests that lead here contradict each other (`if n == 0:` ... `if n:`): dead code
             if bad:
                 ctx.violated("C06.4", ins.fn, "value stored in '%s' is %s: it cannot be bencoded canonically (pyben prints a bool as 'iTruee')" % (label, bad), ins.node)
             elif ins.key is not None and definitely_unencodable(ctx, ins.key, ins.fn):
@@ -649,6 +706,41 @@ def value_kinds(ctx, pt, sites):
               "value kinds of everything stored into a dumped structure", nontrivial=False) if not any(
         o.rule == "C06.4" and o.status == "VIOLATED" for o in ctx.obs) else None
     ctx.floor("values stored into dumped structures", 40, n)
+
+
+def _never_executed(ctx, ins):
+    """The statement is controlled by tests on one integer-like local that cannot hold together: whether that local is zero
+    or not, one of the tests goes the other way."""
+    fn = ins.fn
+    g = C.cfg_of(fn)
+    node = C.stmt_node(ctx, fn, ins.node)
+    deps = [(b, lab) for b, lab in g.control_deps(node) if C.test_expr(b) is not None]
+    names = {x.id for b, _ in deps for x in ast.walk(C.test_expr(b)) if isinstance(x, ast.Name)}
+    for nm in names:
+        # the local is not reassigned between the tests (one definition in the function)
+        if len([1 for x in own_nodes(fn.node) if isinstance(x, ast.Name) and x.id == nm and isinstance(x.ctx, ast.Store)]) + (1 if nm in fn.params else 0) != 1:
+            continue
+        dead_in_all = True
+        for zero in (True, False):
+            def atom(x, nm=nm, zero=zero):
+                if isinstance(x, ast.Name) and x.id == nm:
+                    return not zero
+                if isinstance(x, ast.Compare) and len(x.ops) == 1 and isinstance(x.left, ast.Name) and x.left.id == nm and isinstance(x.comparators[0], ast.Constant) and x.comparators[0].value == 0:
+                    op = x.ops[0]
+                    if isinstance(op, ast.Eq):
+                        return zero
+                    if isinstance(op, ast.NotEq):
+                        return not zero
+                    if isinstance(op, ast.Gt) and zero:
+                        return False
+                    if isinstance(op, ast.LtE) and zero:
+                        return True
+                return None
+            if not any(C.branch_when(b, atom) not in (None, lab) for b, lab in deps):
+                dead_in_all = False
+        if dead_in_all:
+            return True
+    return False
 
 
 # ---------------------------------------------------------------------------------------------- C06.7
